@@ -3,7 +3,8 @@
 Design: TypeSystem.tla -- the laws Refl, Trans, AnyTop, UnionAll, InstFollowsClass,
 AgreesWithIssubclass, DistDefinedOnlyWhenMaybeSub, DistZeroOnIdentity hold on the declarative
 relations (TypeSystemOps.tla) for every class hierarchy within the bounds; with the known
-deviations of the pinned code enabled TLC must report exactly the expected laws as violated.
+deviations of the code as it is (TypeSystemOps.AllDeviations, state after the fixes
+bee086b..1991def) enabled TLC must report exactly the expected laws as violated.
 P2: every hierarchy enumerated by MC_TypeSystem (plus sampled larger / simulated ones) is
 rendered as a module, analysed by the real generate_test_cluster; the full matrices of
 is_subtype / is_maybe_subtype / subtype_distance / is_subclass / issubclass are recorded and
@@ -20,8 +21,10 @@ from harness.tlc import MachineryError
 
 PROP = "C25"
 TRACE_CFG = "TypeSystemTrace.cfg"
-# laws that the declarative model violates when it models the pinned code (Deviations # {})
-EXPECTED_DEVIATION_LAWS = {"DistDefinedOnlyWhenMaybeSub", "DistZeroOnIdentity", "DistDefinedIffMaybeSub",
+# laws that the declarative model violates when it models the code as it is (Deviations =
+# DistCovariantArgs, DistUndefinedForAnyBelowNoneOrTuple, PrimitiveRequestEmpty).
+# DistZeroOnIdentity left this set with 7303de6 (subtype_distance(None, None) == 0).
+EXPECTED_DEVIATION_LAWS = {"DistDefinedOnlyWhenMaybeSub", "DistDefinedIffMaybeSub",
                            "OfferedCompatible", "ProvidersAgree"}
 
 
